@@ -8,8 +8,8 @@ checks = []
 na = []
 for p in props:
     pid = p["id"]
-    if pid in registry.PROPS and pid in mm.META:
-        m = mm.META[pid]
+    if pid in registry.PROPS:
+        m = registry.META[pid]
         checks.append({
             "property_id": pid,
             "quick_cmd": f"./check {pid} --tier quick",
@@ -33,7 +33,7 @@ man = {
         "source_commits": mm.HOOK_COMMITS,
         "add_only": True,
     },
-    "engines": mm.ENGINES,
+    "engines": [{"name": "lean", "path": "lean/", "serves_properties": sorted(registry.PROPS), "kind_free_text": "Lean 4 model, theorems (Props/), compiled model driver drv"}] + [registry.ENGINES[k] for k in sorted(registry.ENGINES)],
     "checks": checks,
     "not_applicable": na,
     "notes": mm.NOTES,
